@@ -604,6 +604,10 @@ func (ed *economicsData) ComputeGasLimitBasedOnBalance(tx process.TransactionWit
 	}
 
 	if !ed.flagGasPriceModifier.IsSet() {
+		if tx.GetGasPrice() == 0 {
+			return 0, process.ErrInsufficientGasPriceInTx
+		}
+
 		gasPriceBig := big.NewInt(0).SetUint64(tx.GetGasPrice())
 		gasLimitBig := big.NewInt(0).Div(balanceWithoutTransferValue, gasPriceBig)
 
@@ -612,6 +616,10 @@ func (ed *economicsData) ComputeGasLimitBasedOnBalance(tx process.TransactionWit
 
 	remainedBalanceAfterMoveBalanceFee := big.NewInt(0).Sub(balanceWithoutTransferValue, moveBalanceFee)
 	gasPriceBigForProcessing := ed.GasPriceForProcessing(tx)
+	if gasPriceBigForProcessing == 0 {
+		return 0, process.ErrInsufficientGasPriceInTx
+	}
+
 	gasPriceBigForProcessingBig := big.NewInt(0).SetUint64(gasPriceBigForProcessing)
 	gasLimitFromRemainedBalanceBig := big.NewInt(0).Div(remainedBalanceAfterMoveBalanceFee, gasPriceBigForProcessingBig)
 
